@@ -328,7 +328,15 @@ def main(tier):
     c05_skip.positive_control(chk, "C05d", tier)
     # C05g: sample ranks come from loops over ALL the samples (not over the active count, which skips the last samples of a Db
     # with a selection)
-    c05_skip.rank_loop_rule(prog, chk, "C05g", tuple(UNITS), 100)
+    if tier == "thorough":
+        gprog = prog
+    else:
+        extra = [u for u in c05_skip.units_with_active_count() if u not in units]
+        gprog = Program().load_dir(extract(extra, "C05g-" + tier))
+        gprog.load_dir(d)
+        gprog.load_dir(dh)
+        chk.units += [u for u in gprog.units if u not in chk.units]
+    c05_skip.rank_loop_rule(gprog, chk, "C05g", ("src/",), 150)
     # C05r: a rank of one data base (loop bounded by its sample count) never addresses a sample of another one (data / target
     # sources only: the pair statistics of src/Stats take two data bases that must match sample by sample, by documented contract)
     c05_skip.rank_owner_rule(prog, chk, "C05r", tuple(u for u in UNITS if "src/Stats/" not in u), 40)
